@@ -11,7 +11,7 @@
    No order law on doubles is assumed anywhere in this file. *)
 From Coq Require Import Floats Permutation.
 From GenqlV Require Import Base.Prelude Base.Value Model.Ast Model.Like Model.Eval Model.Exec.
-From GenqlV Require Import Spec.PredSem Proofs.C01Lemmas.
+From GenqlV Require Import Spec.PredSem Proofs.C01Lemmas Proofs.C01Staged.
 Local Open Scope Z_scope.
 Local Open Scope list_scope.
 
@@ -47,6 +47,19 @@ Theorem C01_filter_exact_rows : forall rec ctx (s : select stmt) (E : env stmt) 
   filter_rows rec ctx s E (map VObj rows) = Ok (map VObj (filter (fun r => pred_sem r p) rows)).
 Proof. exact filter_exact_rows. Qed.
 Print Assumptions C01_filter_exact_rows.
+
+(* conjunction is staged filtering: WHERE p AND q keeps exactly what WHERE q keeps of the rows
+   WHERE p kept (so no row is dropped or let through by the way the two conjuncts interact) *)
+Theorem C01_and_is_staged : forall rec ctx (s s1 s2 : select stmt) (E : env stmt) p q (rows : list row),
+  e_hard E = false ->
+  s_where s = Some (EAnd p q) -> s_where s1 = Some p -> s_where s2 = Some q ->
+  Forall (fun r => in_scope r (EAnd p q) = true) rows ->
+  exists mid,
+    filter_rows rec ctx s1 E (map VObj rows) = Ok (map VObj mid) /\
+    mid = filter (fun r => pred_sem r p) rows /\
+    filter_rows rec ctx s2 E (map VObj mid) = filter_rows rec ctx s E (map VObj rows).
+Proof. exact filter_and_staged. Qed.
+Print Assumptions C01_and_is_staged.
 
 (* lifted to the SELECT stage pipeline: with WHERE p, every later stage (GROUP BY, HAVING, select
    list, DISTINCT, ORDER BY, LIMIT/OFFSET) sees exactly the satisfying rows, in source order *)
